@@ -283,8 +283,8 @@ def _is_ctx(f, e):
 def expand_locals(f, e, limit=16):
     """the expressions ``e`` can stand for when plain locals inside it are replaced by what they are assigned
     (every assignment of the local, both arms of a conditional expression): [expr, ...]"""
-    import copy
     import itertools as _it
+    from .model import _clone
     params = set(f.all_params)
 
     def alts(x, depth=0):
@@ -315,9 +315,9 @@ def expand_locals(f, e, limit=16):
         class T(ast.NodeTransformer):
             def visit_Name(self, node):
                 if isinstance(node.ctx, ast.Load) and node.id in m:
-                    return copy.deepcopy(m[node.id])
+                    return _clone(m[node.id])
                 return node
-        out.append(T().visit(copy.deepcopy(e)))
+        out.append(T().visit(_clone(e)))
     return out
 
 
